@@ -36,6 +36,11 @@ Gammas == {"3", "10"}
 WeightKinds == {"none", "random", "zeros", "wrong_length"}
 GroupKinds == {"int", "sizes", "lists_permuted"}
 Methods == {"efron", "breslow"}
+\* "wide": n = 60, p = 80, support of 14 -- the default working set (p0 = 10) is a strict subset of the features
+\* and grows; with weights = "zeros" there are more unpenalised features (26) than support and than p0
+Sizes == {"small", "wide"}
+WideOK == {"Lasso", "WeightedLasso", "ElasticNet", "MCPRegression", "SparseLogisticRegression", "MultiTaskLasso",
+           "GeneralizedLinearEstimator", "LinearSVC"}
 GLEComps == {<<"Quadratic", "L1">>, <<"Huber", "L1_plus_L2">>, <<"Logistic", "L1">>, <<"Quadratic", "MCPenalty">>,
              <<"Quadratic", "WeightedL1">>, <<"Poisson", "L1">>}
 
@@ -76,12 +81,14 @@ VARIABLES stage, a
 vars == <<stage, a>>
 Init == stage = "est" /\ a = [est |-> "", alpha |-> "0.3", l1_ratio |-> "0.3", C |-> "1", gamma |-> "3",
                               weights |-> "none", groups |-> "int", positive |-> FALSE, fit_intercept |-> TRUE,
-                              method |-> "efron", gle |-> <<"Quadratic", "L1">>, storage |-> "dense"]
+                              method |-> "efron", gle |-> <<"Quadratic", "L1">>, storage |-> "dense",
+                              size |-> "small"]
 PickEst == stage = "est" /\ \E e \in Estimators : a' = [a EXCEPT !.est = e] /\ stage' = "args"
 PickArgs == stage = "args" /\
   \E al \in AlphaFracs : \E r \in L1Ratios : \E c \in Cs : \E g \in Gammas : \E w \in WeightKinds :
   \E gk \in GroupKinds : \E p \in BOOLEAN : \E fi \in BOOLEAN : \E m \in Methods : \E k \in GLEComps :
-  \E st \in {"dense", "csc"} :
+  \E st \in {"dense", "csc"} : \E sz \in Sizes :
+    /\ (a.est \in WideOK \/ sz = "small")
     /\ (HasWeights(a.est) \/ w = "none")
     /\ (a.est # "GroupLasso" \/ w # "wrong_length")       \* only WeightedLasso / MCPRegression check the length
     /\ (a.est \in {"ElasticNet", "CoxEstimator"} \/ r = "0.3")
@@ -95,7 +102,8 @@ PickArgs == stage = "args" /\
     /\ (a.est = "GeneralizedLinearEstimator" \/ k = <<"Quadratic", "L1">>)
     /\ (a.est \notin {"SqrtLasso", "GroupLasso"} \/ st = "dense")
     /\ a' = [a EXCEPT !.alpha = al, !.l1_ratio = r, !.C = c, !.gamma = g, !.weights = w, !.groups = gk,
-                      !.positive = p, !.fit_intercept = fi, !.method = m, !.gle = k, !.storage = st]
+                      !.positive = p, !.fit_intercept = fi, !.method = m, !.gle = k, !.storage = st,
+                      !.size = sz]
     /\ stage' = "emit"
 Emit == stage = "emit" /\ PrintT(ToJson([args |-> a, doc |-> Descriptor(a)])) /\ stage' = "done" /\ UNCHANGED a
 Next == PickEst \/ PickArgs \/ Emit
